@@ -14,11 +14,9 @@ Definition atom_char (c : char) : bool :=
 Definition atom_ok (s : str) : bool :=
   match s with [] => false | _ => forallb atom_char s end.
 
-(* the liberal atom ddSMT's scanner also accepts: quote and bar allowed after
-   the first character (used for the renderer round trip, C07) *)
-Definition atom_char_tl (c : char) : bool := negb (is_ws c || is_brk c).
-Definition atom_ok_lib (s : str) : bool :=
-  match s with [] => false | c :: tl => atom_char c && forallb atom_char_tl tl end.
+(* (ddSMT's scanner used to accept a quote or a bar inside an atom; since fix F41 it does not: the liberal class
+   of earlier versions is kept as a name only and is the standard one) *)
+Definition atom_ok_lib (s : str) : bool := atom_ok s.
 
 (* body of a string literal: any characters, a double quote only doubled *)
 Fixpoint strbody_ok (s : str) : bool :=
@@ -52,12 +50,14 @@ Definition qsym_ok (s : str) : bool :=
   | [] => false
   end.
 
-(* a comment leaf as the reader keeps it: semicolon, text without LF, final LF *)
+(* a comment leaf as the reader keeps it: semicolon, text without line-breaking character, and the line-breaking
+   character (LF or CR) that ends it *)
+Definition is_lb (c : char) : bool := N.eqb c cLF || N.eqb c cCR.
 Definition comment_ok (s : str) : bool :=
   match s with
   | c :: tl => N.eqb c cSEMI &&
       match rev tl with
-      | d :: body_rev => N.eqb d cLF && forallb (fun x => negb (N.eqb x cLF)) body_rev
+      | d :: body_rev => is_lb d && forallb (fun x => negb (is_lb x)) body_rev
       | [] => false
       end
   | [] => false
@@ -92,7 +92,7 @@ Definition may_touch (x y : lexeme) : bool :=
   | Tok s, Tok t =>
       comment_ok s || qsym_ok s
       || (strlit_ok s && match t with c :: _ => negb (N.eqb c cDQ) | [] => true end)
-      || (atom_ok_lib s && comment_ok t)
+      || (atom_ok_lib s && (comment_ok t || strlit_ok t || qsym_ok t))
   end.
 
 Definition ws_ok (w : str) : bool := forallb is_ws w.
